@@ -202,6 +202,12 @@ impl Global {
                 None => break,
                 Some(sealed_bag) => {
                     drop(sealed_bag);
+                    // The deferred functions may have taken a long time. This is a safe point
+                    // for re-announcing the epoch: no epoch-protected pointer of the collector
+                    // is held here.
+                    if let Some(local) = unsafe { guard.local.as_ref() } {
+                        local.repin_if_quiescent(0);
+                    }
                 }
             }
         }
@@ -382,8 +388,23 @@ impl Local {
     }
 
     pub(crate) fn schedule_collection(&self) {
+        // Do not re-announce the epoch here, even during a collection: this is reached from
+        // `defer` and `flush`, i.e. possibly from a destructor that holds its own guard (and
+        // snapshots protected by it), or from the middle of a traversal of the registry or of
+        // the garbage queue. `collect` and `unpin` re-announce at safe points instead.
         self.must_collect.set(true);
-        if self.collecting.get() {
+    }
+
+    /// Re-announces the current global epoch during a collection or a long disposal, but only
+    /// if no critical section other than the caller's own is alive on this participant.
+    ///
+    /// `own_guards` is the number of live guards that the caller created itself and that protect
+    /// nothing across this call. The guard whose `drop` is running the collection (if any) is
+    /// accounted for here.
+    #[inline]
+    pub(crate) fn repin_if_quiescent(&self, own_guards: usize) {
+        let expected = own_guards + usize::from(self.collecting.get());
+        if self.guard_count.get() == expected {
             self.repin_without_collect();
         }
     }
@@ -474,7 +495,9 @@ impl Local {
                 debug_assert!(self.epoch.load(Ordering::Relaxed).is_pinned());
                 let guard = ManuallyDrop::new(Guard { local: self });
                 self.global().collect(&guard);
-                self.repin_without_collect();
+                // A destructor may have created a guard that is still alive (e.g. kept in a
+                // thread-local); then the announced epoch must stay.
+                self.repin_if_quiescent(0);
             }
             self.collecting.set(false);
         }
